@@ -15,7 +15,6 @@
 -/
 import KmipModel.Lemmas.PlanLemmas
 import KmipModel.Lemmas.DispatchLemmas
-import KmipModel.Props.C02
 import KmipModel.Gen.Schema
 import KmipModel.Pinned.AttrSpec
 namespace Kmip.C06
@@ -413,8 +412,8 @@ example : (do
     decCustom Gen.schema 64 Cust.getResponse getResponseId T.responsePayload c none).isErr = true := by
   decide +kernel
 
-/-- 6a's hypothesis is satisfiable: the sample tree of C03 is an in-range structure. -/
-example : ∃ tag its, C03.sample = .struct tag its ∧ (Item.struct tag its).InRange :=
-  ⟨_, _, rfl, C02.sample_inRange⟩
+/-- 6a/6b's hypothesis is satisfiable: a payload structure holding an Integer and a Text String is in range. -/
+example : (Item.struct T.requestPayload [.int 0x420020 7, .text 0x420094 [0x31]]).InRange := by
+  simp [Item.InRange, Item.AllInRange, inInt, enc, encList, hdr, padForLen, T.requestPayload]
 
 end Kmip.C06
